@@ -190,9 +190,17 @@ def WeakConsistent (flt : Flt) : Prop :=
 /-- The engine's view of a list agrees with its file. -/
 def InSync (l : LState) : Prop := l.inForce = (if l.flt.enabled then l.flt.file else none)
 
-/-- A history of `tryRefreshFilters` calls. -/
-def runHist (h : List (Req × List (Bool × Fetch))) (ls : List LState) : List LState :=
-  h.foldl (fun s c => refreshStep c.1 s c.2) ls
+/-- One call that changes the lists: `tryRefreshFilters` or a set_url request. -/
+inductive HOp where
+  | refresh (rq : Req) (ins : List (Bool × Fetch))
+  | setURL (i : Nat) (rq : SetReq) (f : Fetch)
+
+def stepH (ls : List LState) : HOp → List LState
+  | .refresh rq ins => refreshStep rq ls ins
+  | .setURL i rq f => (setURLStep ls i rq f).1
+
+/-- A history of refreshes and set_url requests. -/
+def runHist (h : List HOp) (ls : List LState) : List LState := h.foldl stepH ls
 
 /-- What the harness observes of list `i` in model state `l`. -/
 def obsOf (i : Nat) (l : LState) (rew : Bool) : ListObs :=
